@@ -20,7 +20,7 @@ func init() {
 			"for append-1 and create-empty files the loader creates the file when absent and accepts any whole number of records; for create-then-write (server.keys) and truncate-then-write (gcaPubKey.dat) the loader must treat an empty file exactly like an absent one: " +
 			"every use of the contents as valid state is dominated by len == full size (BOUND), and no error return of the loader is reachable with an empty file; ORDER every in-memory update that a durable write justifies is dominated by the successful write in the same critical section, " +
 			"or the failure stops the process; PARTIAL every operation writes at most one record to at most one durable file, so no operation can be half applied across files; WHO-MAY only the classified writers touch the durable files. " +
-			"LOG a record log written by truncate/create-then-write is a violation (earlier records destroyed). ORDER is decided by re-running the saver structures of C07 (key file written before key and flag are set, every success sets both), C06 (authorization appended before the tables change) and C03 (archived week on disk before the offset advances); a file created and then written in more than one Write is a violation (a crash between them leaves a partial non-empty file). NOT decided: torn single writes and power loss (outside the stated model), SIGKILL timing as such, that the recovered state equals a prefix of the submitted operations (C04 covers replay).",
+			"LOG a record log written by truncate/create-then-write is a violation (earlier records destroyed). ORDER is decided by re-running the saver structures of C07 (key file written before key and flag are set, every success sets both), C06 (authorization appended before the tables change) and C03 (archived week on disk before the offset advances); a file created and then written in more than one Write is a violation (a crash between them leaves a partial non-empty file). The device-table and replay rules of C06/C04 are re-run (replaying a durable prefix makes the live case analysis); a registration is never refused because of a disk probe (os.Stat/Open/ReadFile) - after a crash inside the key write the file exists while the server is unregistered. NOT decided: torn single writes and power loss (outside the stated model), SIGKILL timing as such, that the recovered state equals a prefix of the submitted operations (C04 covers replay).",
 		Assumptions: append([]string{"process-crash model: a completed write(2)/open(2) survives, an O_APPEND write of one buffer is not interleaved (README: File Writing and Archiving)"}, baseAssumptions...),
 		Run:         runC05,
 	})
@@ -149,6 +149,10 @@ func runC05(c *an.Ctx) {
 		saverStructure(c, as, false)
 	}
 	rotateRules(c, contig(c, "CONTIG"))
+	// "the state a start recovers is the state some prefix of the operations produced": replaying a durable prefix makes
+	// the same case analysis as the live operations did (device tables: rules owned by C06; reports: owned by C04)
+	authTableRules(c, "C05")
+	restartRules(c)
 }
 
 // appendOneWholeRecord: the single Write writes a Serialize() result (one whole record).
